@@ -25,6 +25,7 @@ def run(ctx):
                         "time budget 5 s per call"]
     trace = os.path.join(ctx.work, "total.ndjson")
     args = ["trans", "total", "--out", trace, "--workers", "8" if ctx.tier == "quick" else "16"]
+    ctx.grammar_corpus(stride=48 if ctx.tier == "quick" else 4, skstride=6 if ctx.tier == "quick" else 1)
     p = ctx.vh(args, race=True, check=False, timeout=3000)
     race = "DATA RACE" in p.stdout
     if p.returncode not in (0, 66) or (p.returncode == 66 and not race):
